@@ -62,7 +62,7 @@ def templatise(rng, model):
         m['sections'].append(lib)
         e = rng.choice(prs[0]); e['frags'] = [('ref', ('Other', 'Lib'), ('opt', 'short'))]
         if rng.random() < 0.5 and 'rho' not in used:
-            used.add('rho'); variables.append(('rho', [('lit', '0.5')]))      # a [Variables] rho that must NOT be used for ${Lib:short}
+            used.add('rho'); variables.append(('rho', [('lit', '0.5')]))      # a [Variables] rho: ${rho} inside the library entry is this one (variables first)
     # unused variables, some with names that resemble keys of other sections
     for _ in range(rng.choice([0, 1, 2, 3])):
         name = fresh(); variables.append((name, [('lit', rng.choice(['7', '0.125', 'LAMMPS', 'as.buck 1 2 3']))]))
@@ -90,9 +90,9 @@ def resolve(m, s, frags, depth=0):
     for f in frags:
         if f[0] == 'lit': out.append(f[1])
         elif f[0] == 'var':
-            own = [e for e in secs.get(sc.sect_name(s), []) if e['key'] == ('opt', f[1])]
-            src = own or [e for e in secs.get('Variables', []) if e['key'] == ('opt', f[1])]
-            out.append(resolve(m, s if own else ('Variables',), src[0]['frags'], depth + 1))
+            # ${NAME} is the [Variables] entry; a name [Variables] does not define is an option of the section the text belongs to
+            src = [e for e in secs.get('Variables', []) if e['key'] == ('opt', f[1])] or [e for e in secs.get(sc.sect_name(s), []) if e['key'] == ('opt', f[1])]
+            out.append(resolve(m, s, src[0]['frags'], depth + 1))
         else:
             src = [e for e in secs[sc.sect_name(f[1])] if tuple(e['key']) == tuple(f[2])]
             out.append(resolve(m, f[1], src[0]['frags'], depth + 1))
@@ -187,11 +187,5 @@ def shadowed(case):
             if any(f[0] == 'var' and f[1] in own for f in e['frags']): return True
     return False
 
-def finding_for(case, fails):
-    return 'C15-shadow' if shadowed(case) else None
-
-def replay_finding(f):
-    if f.get('id') != 'C15-shadow': return False
-    txt = '[Variables]\nAl = 0.6\n\n[Tabulation]\ntarget : setfl\nnr : 5\nnrho : 5\n\n[Pair]\n\n[EAM-Embed]\nAl : as.sqrt -1.0\n\n[EAM-Density]\nAl : as.bornmayer 1.0 ${Al}\n'
-    r = sc.classify(lambda: sc.tabulate(txt))
-    return r[0] != 'Ok'
+def finding_for(case, fails): return None
+def replay_finding(f): return False
